@@ -9,7 +9,10 @@ TARGET = os.path.join(lib.WORK, "target-dlint")
 CLEAN = ["export function f(a) { return a + 1; }\n", "export const a = 1;\n", "// nothing\n", ""]
 DIRTY = ["debugger;\n", "var a = 1;\nexport { a };\n", "export function f() { debugger; if (x == 1) { } }\n",
          "// deno-lint-ignore no-debugger\ndebugger;\nlet x = 1; x = 2; export { x };\nfor (;;) { debugger; }\n",
-         "export const x = <div key={1}>a > b</div>;\n"]
+         "export const x = <div key={1}>a > b</div>;\n",
+         # directives naming a real rule that is NOT in the recommended set, an unknown rule, a selected rule that does not fire
+         "// deno-lint-ignore eqeqeq\nexport const q = 1;\n", "// deno-lint-ignore-file camelcase no-console\ndebugger;\n",
+         "// deno-lint-ignore no-such-rule eqeqeq\ndebugger;\n", "// deno-lint-ignore no-debugger\nexport const r = 2;\n"]
 RECOVERABLE = ["with (a) {}\n", "with (a) { debugger; }\n", "export const a = 1;\nwith (b) {}\nwith (c) {}\n",
                "// deno-lint-ignore-file\nwith (a) {}\n", "// deno-lint-ignore-file no-with no-empty\nwith (a) {}\n"]
 MEDIA_OF = {".ts": "ts", ".js": "js", ".tsx": "tsx", ".jsx": "jsx", ".mjs": "mjs"}
@@ -110,7 +113,21 @@ def dlint_fatal_determinism(ctx, prefix="C19"):
         ctx.violation("%s.dlint-report-depends-on-schedule-with-duplicate-paths" % prefix,
                       "a path listed several times: stderr/exit differ between thread counts %d and %d" % (a[0], b[0]),
                       {"dir": root, "run_a": {"threads": a[0], "exit": a[1], "stderr": a[2][-600:]}, "run_b": {"threads": b[0], "exit": b[1], "stderr": b[2][-600:]}})
-    return len(runs) + len(druns) + dlint_config_files(ctx, dl, prefix)
+    # exit status and count for totals around and at multiples of 256 (one file, and split over two files)
+    nbig = 0
+    for total in (255, 256, 257, 512, 65536):
+        if total > 1000 and ctx.tier == "quick":
+            continue
+        for split in (False, True):
+            a_n = total if not split else total - 3
+            open(os.path.join(root, "many_a.ts"), "w").write("debugger;\n" * a_n)
+            open(os.path.join(root, "many_b.ts"), "w").write("debugger;\n" * (total - a_n))
+            rc, so, se = run_dlint(dl, root, ["--rule", "no-debugger", "--format", "compact", "many_a.ts"] + (["many_b.ts"] if split else []), 4)
+            nbig += 1
+            lines, cnt = split_count(se)
+            if cnt != total or rc == 0:
+                ctx.violation("%s.dlint-count-or-exit-at-%d" % (prefix, total), "%d problems expected: dlint says %d and exits %d" % (total, cnt, rc), {"dir": root, "total": total, "split": split, "stderr_tail": se[-300:]})
+    return len(runs) + len(druns) + nbig + dlint_config_files(ctx, dl, prefix)
 
 
 def dlint_config_files(ctx, dl, prefix):
@@ -122,7 +139,11 @@ def dlint_config_files(ctx, dl, prefix):
     shutil.rmtree(root, ignore_errors=True)
     os.makedirs(os.path.join(root, "sub"))
     rng = random.Random(ctx.seed + 1901)
-    files = {"a.ts": True, "b.ts": False, "c.ts": True, "d.ts": True, "sub/e.ts": True, "sub/f.ts": False, "sub/g.ts": True, "sub/x.ts": True}
+    files = {"a.ts": True, "b.ts": False, "c.ts": True, "d.ts": True, "sub/e.ts": True, "sub/f.ts": False, "sub/g.ts": True, "sub/x.ts": True,
+             # every extension the linter knows, matched by a glob of the config
+             "kinds/k.js": True, "kinds/k.mjs": True, "kinds/k.cjs": True, "kinds/k.jsx": True, "kinds/k.tsx": True, "kinds/k.mts": True, "kinds/k.cts": True,
+             "kinds/k.d.ts": True, "kinds/k.d.mts": True, "kinds/k.d.cts": True}
+    os.makedirs(os.path.join(root, "kinds"))
     for nm, dirty in files.items():
         open(os.path.join(root, nm), "w").write("debugger;\n" if dirty else "export {};\n")
     ab = lambda nm: os.path.join(os.path.realpath(root), nm)
@@ -134,7 +155,9 @@ def dlint_config_files(ctx, dl, prefix):
         ([ab("sub/f.ts"), ab("sub/e.ts"), ab("a.ts")], [], ["d.ts"], ["a.ts", "d.ts", "sub/e.ts", "sub/f.ts"]),
         (["sub/*.ts"], ["sub/x.ts"], ["a.ts"], ["a.ts", "sub/e.ts", "sub/f.ts", "sub/g.ts"]),
         (["sub/*.ts", ab("c.ts"), ab("d.ts")], [], [], ["c.ts", "d.ts", "sub/e.ts", "sub/f.ts", "sub/g.ts", "sub/x.ts"]),
-        (["*.ts"], [], [], ["a.ts", "b.ts", "c.ts", "d.ts", "sub/e.ts", "sub/f.ts", "sub/g.ts", "sub/x.ts"]),     # gitignore-style: any depth
+        (["*.ts"], [], [], ["a.ts", "b.ts", "c.ts", "d.ts", "sub/e.ts", "sub/f.ts", "sub/g.ts", "sub/x.ts", "kinds/k.d.ts"]),     # gitignore-style: any depth
+        (["kinds/*"], [], [], ["kinds/k.js", "kinds/k.mjs", "kinds/k.cjs", "kinds/k.jsx", "kinds/k.tsx", "kinds/k.mts", "kinds/k.cts", "kinds/k.d.ts", "kinds/k.d.mts", "kinds/k.d.cts"]),
+        (["kinds/*.d.*"], [], ["a.ts"], ["a.ts", "kinds/k.d.ts", "kinds/k.d.mts", "kinds/k.d.cts"]),
     ]
     n = 0
     for pi, (inc, exc, cli, want_files) in enumerate(plans):
@@ -173,7 +196,8 @@ def dlint_selection(ctx, dl, prefix, rng):
     shutil.rmtree(seld, ignore_errors=True)
     os.makedirs(seld)
     src = ("debugger;\nvar a = 1;\nif (a == 1) { }\nexport {};\nconsole.log(1);\nenum E {}\ninterface I {}\nwindow.x = 1;\nconst l = window.location;\n"
-           "function f(a, a2) { if (a) {} else {} }\nclass A { constructor() {} }\nfor (;;) {}\nlet u: any = 1;\n// TODO\nnew Symbol();\n")
+           "function f(a, a2) { if (a) {} else {} }\nclass A { constructor() {} }\nfor (;;) {}\nlet u: any = 1;\n// TODO\nnew Symbol();\n"
+           "// deno-lint-ignore eqeqeq camelcase no-such-rule\nlet w = 1;\n// deno-lint-ignore no-console\nlet w2 = w;\n")
     open(os.path.join(seld, "s.ts"), "w").write(src)
     reg = lib.vh_registry()
     tagmap = {r["code"]: set(r["tags"]) for r in reg["rules"]}
